@@ -11,6 +11,10 @@ op lines:
   ref <container id> <method>         -> name of the reference effect | ? (unknown id or member)
   run <init> <call>*                  -> Known size after the calls | -     init = known size | -
         call = <actionIdx>:<yieldIdx>:<arg>      (arg = resize argument / appended length, 0 when irrelevant)
+  ctor <kind> <b|p> <arg>*            -> Known size of `T x{args}` / `T x(args)` (ctorSize) | -
+  ctorref <kind> <b|p> <arg>*         -> size of the constructed container by the reference (ctorRef) | -    ; `x` = excluded form flag appended: `<size> x`
+        kind = string | seq | set | uset | multiset
+        arg  = n<c|i><k|u><v>  l<len>  p<len>  q<len>,<k><k|u>  a<n>  z<n>,<k>  b<size>,<distinct><k|u>  e  c<size>,<distinct><k|u>
 -/
 namespace Driver.C02
 
@@ -47,6 +51,42 @@ def parseCalls : List String → Option (List Call)
     | some c, some cs => some (c :: cs)
     | _, _ => none
 
+def parseKind : String → Option CKind
+  | "string" => some .string | "seq" => some .seq | "set" => some .set | "uset" => some .uset | "multiset" => some .multiset
+  | _ => none
+
+def two (s : String) : Option (Nat × Nat) :=
+  match s.splitOn "," with
+  | [a, b] => match a.toNat?, b.toNat? with | some a, some b => some (a, b) | _, _ => none
+  | _ => none
+
+def parseArg (w : String) : Option Arg :=
+  match w.toList with
+  | ['e'] => some .itEnd
+  | 'n' :: c :: k :: r => (String.ofList r).toNat?.map fun v => .num (c == 'c') v (k == 'k')
+  | 'l' :: r => (String.ofList r).toNat?.map .lit
+  | 'p' :: r => (String.ofList r).toNat?.map .cptr
+  | 'a' :: r => (String.ofList r).toNat?.map .arrB
+  | 'z' :: r => (two (String.ofList r)).map fun (n, k) => .arrE n k
+  | 'q' :: r =>
+    let body := String.ofList r
+    (two (body.dropRight 1)).map fun (len, k) => .cptrPlus len k (body.endsWith "k")
+  | 'b' :: r =>
+    let body := String.ofList r
+    (two (body.dropRight 1)).map fun (s, d) => .itBegin s d (body.endsWith "k")
+  | 'c' :: r =>
+    let body := String.ofList r
+    (two (body.dropRight 1)).map fun (s, d) => .cont s d (body.endsWith "k")
+  | _ => none
+
+def parseArgs : List String → Option (List Arg)
+  | [] => some []
+  | w :: r => match parseArg w, parseArgs r with | some a, some as => some (a :: as) | _, _ => none
+
+def showOpt : Option Nat → String
+  | some n => toString n
+  | none => "-"
+
 def step (line : String) : String :=
   match fields line with
   | ["spell", "action", s] => match Action.ofString s with | some a => toString (idxOf actions a) | none => "-"
@@ -69,6 +109,14 @@ def step (line : String) : String :=
     match kindOf c with
     | some k => match refEffect k m with | some e => effName e | none => "?"
     | none => "?"
+  | "ctor" :: k :: b :: args =>
+    match parseKind k, parseArgs args with
+    | some k, some as => showOpt (ctorSize k (b == "b") as)
+    | _, _ => "bad-op"
+  | "ctorref" :: k :: b :: args =>
+    match parseKind k, parseArgs args with
+    | some k, some as => showOpt (ctorRef k (b == "b") as) ++ (if ctorExcluded k (b == "b") as then " x" else "")
+    | _, _ => "bad-op"
   | "run" :: init :: calls =>
     match parseCalls calls with
     | some cs =>
